@@ -275,6 +275,24 @@ func eqInts(a, b []int) bool {
 
 const dupFinding = "C51-dup-rows"
 
+// dropConfigFinding: dropping a FULLTEXT index that sorts before another FULLTEXT index of the
+// table also drops the shared config table; the next DML on the table panics.
+const dropConfigFinding = "C51-drop-shared-config"
+
+func dropConfigWitness(fail func(string, ...any)) (bool, string) {
+	f := fx.New(fx.Opts{})
+	defer f.Close()
+	s := f.NewSession("", "", "")
+	s.MustExec(fail,
+		"CREATE TABLE t (id INT PRIMARY KEY, title VARCHAR(200), body TEXT, FULLTEXT KEY ft (title), FULLTEXT KEY ft2 (body))",
+		"INSERT INTO t VALUES (1, 'cat', 'fish')",
+		"ALTER TABLE t DROP INDEX ft")
+	r := s.Exec("SELECT id FROM t WHERE MATCH(body) AGAINST ('fish')")
+	u := s.Exec("UPDATE t SET body = 'dog' WHERE id = 1")
+	ok := r.OK() && eqInts(idsOf(r), []int{1}) && u.OK()
+	return !ok, fmt.Sprintf("FULLTEXT ft(title), ft2(body); ALTER TABLE t DROP INDEX ft; then MATCH(body) AGAINST ('fish') -> %s ; UPDATE t SET body = 'dog' -> %s", r, u)
+}
+
 // rewriteFinding: a table rewrite (ALTER TABLE ... DROP COLUMN) rebuilds the full-text tables
 // with the table's default collation instead of the collation of the indexed columns.
 const rewriteFinding = "C51-rewrite-collation"
@@ -429,6 +447,8 @@ func TestC51(t *testing.T) {
 	excludeUpsertConflicts := upsertRepro && kf.Listed(upsertFinding)
 	rewriteRepro, _ := rewriteWitness(t.Fatalf)
 	excludeRewrite := rewriteRepro && kf.Listed(rewriteFinding)
+	dropRepro, _ := dropConfigWitness(t.Fatalf)
+	excludeDropFirst := dropRepro && kf.Listed(dropConfigFinding)
 	rapid.Check(t, func(rt *rapid.T) {
 		st.Eval()
 		f := fx.New(fx.Opts{})
@@ -578,6 +598,11 @@ func TestC51(t *testing.T) {
 				}
 			case "reindex":
 				ix := rapid.IntRange(0, len(m.indexes)-1).Draw(rt, "ix")
+				if excludeDropFirst && len(m.indexes) > 1 && ix == 0 {
+					// indexes are named ft < ft2: dropping ft while ft2 exists is the region
+					st.Excluded(dropConfigFinding)
+					ix = 1
+				}
 				c.must("ALTER TABLE t DROP INDEX " + m.indexes[ix].name)
 				cols := rapid.SampledFrom([][]string{{"title"}, {"title", "body"}, {"body"}, {"body", "title"}}).Draw(rt, "newcols")
 				// two indexes over the same column list are not distinguishable by MATCH
@@ -641,64 +666,42 @@ func TestC51(t *testing.T) {
 	})
 }
 
-// TestC51Known re-confirms the witness of the proposed finding.
+// TestC51Known re-confirms the witnesses of the proposed findings.
 func TestC51Known(t *testing.T) {
 	st := stats.New("C51", "known")
 	defer st.Flush()
-	st.Eval()
+	for _, w := range []struct {
+		id string
+		fn func(func(string, ...any)) (bool, string)
+	}{
+		{dupFinding, dupWitness}, {upsertFinding, upsertWitness}, {rewriteFinding, rewriteWitness}, {dropConfigFinding, dropConfigWitness},
+	} {
+		st.Eval()
+		repro, desc := w.fn(t.Fatalf)
+		if !repro {
+			t.Logf("finding %s no longer reproduces", w.id)
+			st.Class("witness-fixed:" + w.id)
+			continue
+		}
+		st.Class("witness-reproduces:" + w.id)
+		st.NonTrivial(nil, w.id)
+		if !kf.Suppress(st, w.id) {
+			t.Errorf("finding %s reproduces and is not listed as known: %s", w.id, desc)
+		}
+	}
+}
+
+func dupWitness(fail func(string, ...any)) (bool, string) {
 	f := fx.New(fx.Opts{})
 	defer f.Close()
 	s := f.NewSession("", "", "")
-	s.MustExec(t.Fatalf,
+	s.MustExec(fail,
 		"CREATE TABLE t (id INT PRIMARY KEY, title VARCHAR(200), FULLTEXT KEY ft (title))",
 		"INSERT INTO t VALUES (1, 'cat dog'), (2, 'fish')")
 	r := s.Exec("SELECT id FROM t WHERE MATCH(title) AGAINST ('cat dog')")
 	if !r.OK() {
-		t.Fatalf("witness query failed: %s", r)
+		fail("witness query failed: %s", r)
 	}
 	got := idsOf(r)
-	if eqInts(got, []int{1}) {
-		t.Logf("finding %s no longer reproduces", dupFinding)
-		st.Class("witness-fixed:" + dupFinding)
-		return
-	}
-	st.Class("witness-reproduces:" + dupFinding)
-	st.NonTrivial(nil, dupFinding)
-	if !eqInts(got, []int{1, 1}) || !kf.Suppress(st, dupFinding) {
-		t.Errorf("SELECT id FROM t WHERE MATCH(title) AGAINST ('cat dog') over rows (1,'cat dog'),(2,'fish') returned ids %v, expected [1]", got)
-	}
-}
-
-func TestC51KnownRewrite(t *testing.T) {
-	st := stats.New("C51", "known-rewrite")
-	defer st.Flush()
-	st.Eval()
-	repro, desc := rewriteWitness(t.Fatalf)
-	if !repro {
-		t.Logf("finding %s no longer reproduces", rewriteFinding)
-		st.Class("witness-fixed:" + rewriteFinding)
-		return
-	}
-	st.Class("witness-reproduces:" + rewriteFinding)
-	st.NonTrivial(nil, rewriteFinding)
-	if !kf.Suppress(st, rewriteFinding) {
-		t.Errorf("%s", desc)
-	}
-}
-
-func TestC51KnownUpsert(t *testing.T) {
-	st := stats.New("C51", "known-upsert")
-	defer st.Flush()
-	st.Eval()
-	repro, desc := upsertWitness(t.Fatalf)
-	if !repro {
-		t.Logf("finding %s no longer reproduces", upsertFinding)
-		st.Class("witness-fixed:" + upsertFinding)
-		return
-	}
-	st.Class("witness-reproduces:" + upsertFinding)
-	st.NonTrivial(nil, upsertFinding)
-	if !kf.Suppress(st, upsertFinding) {
-		t.Errorf("%s", desc)
-	}
+	return !eqInts(got, []int{1}), fmt.Sprintf("SELECT id FROM t WHERE MATCH(title) AGAINST ('cat dog') over rows (1,'cat dog'),(2,'fish') returned ids %v, expected [1]", got)
 }
